@@ -89,6 +89,8 @@ PENDING = {
     "setitem:dask-bool-array&split-chunks&value=array:values": "x[da_mask, :] = v with v.shape[0] == 1: only the first block with a True is assigned - silent",
     "setitem:dask-bool-array+int&split-chunks&value=array:values": "same with an integer index",
     "setitem:Ellipsis+dask-bool-array+int&split-chunks&value=array:values": "same",
+    "setitem:Ellipsis+dask-bool-array&split-chunks&value=array:values": "same",
+    "setitem:dask-bool-array&value=array:ValueError@array/slicing.py:setitem_array": "x[da_mask_1d, :] = row (value with fewer axes than the selection): implied_shape_positions is not shifted by offset",
     # empty selections
     "setitem:empty-selection&value=array-with-axis-longer-than-1:ValueError@array/slicing.py:setitem_array": "x[:0, :] = np.ones((0, 7)) (or (7,)) raises; NumPy: no-op",
     "setitem:empty-selection&value=zero-size-array:ValueError@array/slicing.py:setitem_array": "x[3:8:-1] = np.ones(0): negative implied size in parse_assignment_indices",
@@ -197,6 +199,7 @@ def cases(tier, seed):
         chunks = A.rand_chunks(rng, shape)
         while np.prod([len(c) for c in chunks] or [1]) > 100:
             chunks = tuple(A.rand_comp(rng, s, rng.choice(("one", "two", "regular"))) for s in shape)
+        chunks = IX.with_zero_chunks(rng, chunks)
         enc, bare = IX.rand_index(rng, shape, "set", chunks)
         yield {"shape": list(shape), "chunks": [list(c) for c in chunks], "dtype": rng.choice(DTYPES), "index": enc, "bare": bare,
                "vmode": rng.choice(VMODES), "vkind": rng.choice(VKINDS), "vseed": rng.randrange(2 ** 31), "threads": rng.random() < 0.1}
